@@ -117,16 +117,29 @@ func runPolarityCoherent(p *Program, r *RuleResult) {
 		n := 0
 		for _, b := range cview.Blocks() {
 			for _, in := range cview.Instrs(b) {
-				ta, ok := in.(*ssa.TypeAssert)
-				if !ok || !ta.CommaOk || typeIsInterface(ta.AssertedType) {
+				// a comma-ok assertion, written directly or through an assertion wrapper
+				var ta ssa.Instruction
+				var assertedT types.Type
+				var tupleRefs *[]ssa.Instruction
+				switch x := in.(type) {
+				case *ssa.TypeAssert:
+					if x.CommaOk {
+						ta, assertedT, tupleRefs = x, x.AssertedType, x.Referrers()
+					}
+				case *ssa.Call:
+					if at, isW := p.assertionWrapper(x.Common().StaticCallee()); isW {
+						ta, assertedT, tupleRefs = x, at, x.Referrers()
+					}
+				}
+				if ta == nil || typeIsInterface(assertedT) {
 					continue
 				}
-				K := namedOf(ta.AssertedType)
+				K := namedOf(assertedT)
 				if K == nil || K.Obj().Pkg().Path() != typesPkg {
 					continue
 				}
 				used := false
-				for _, u := range *ta.Referrers() {
+				for _, u := range *tupleRefs {
 					if ex, ok := u.(*ssa.Extract); ok && ex.Index == 0 && ex.Referrers() != nil && len(*ex.Referrers()) > 0 {
 						used = true
 					}
